@@ -31,6 +31,8 @@ var ops = []op{
 	{"AddCmd", "text/css", "cmd"}, {"AddCmdRegexp", "^text/h", "cmd"}, {"AddCmd", "text/plain", "cmd"},
 	// a pattern without any metacharacter or anchor matches every media type that CONTAINS the text
 	{"AddRegexp", "json", "C"}, {"AddFuncRegexp", "text/css", "D"},
+	// a literal with capitals: names are compared as they are written, in registrations and in calls
+	{"AddFunc", "text/HTML", "B"},
 }
 
 func (o op) String() string { return fmt.Sprintf("%s(%q,%s)", o.kind, o.key, o.stub) }
@@ -38,7 +40,9 @@ func (o op) String() string { return fmt.Sprintf("%s(%q,%s)", o.kind, o.key, o.s
 var queries = []string{"text/html", "text/css", "text/plain", "text/html; charset=UTF-8", "text/html;a=b;c=d", " text/html", "text/html ;q=1",
 	"text/css; charset=utf-8", "text/*", "*/*", "image/svg+xml", "application/xml", "application/json;x=y", "text/x", "jsonp", "application/ld+json; charset=utf-8", "text/css2",
 	// longer than any fixed-size scratch buffer a media type might be copied into (71 bytes; 65 and 64 bytes with parameters)
-	"application/vnd.openxmlformats-officedocument.wordprocessingml.document+xml", "text/html; charset=utf-8; boundary=----WebKitFormBoundary7MA4YWxkTrZu", "text/html; charset=utf-8; boundary=----WebKitFormBoundary7MA4YWxkTrZ"}
+	"application/vnd.openxmlformats-officedocument.wordprocessingml.document+xml", "text/html; charset=utf-8; boundary=----WebKitFormBoundary7MA4YWxkTrZu", "text/html; charset=utf-8; boundary=----WebKitFormBoundary7MA4YWxkTrZ",
+	// capitals in the type, in the subtype and in a parameter
+	"text/HTML", "Text/css", "text/HTML; Charset=UTF-8", "TEXT/HTML"}
 
 // call records what a stub saw.
 type call struct {
